@@ -684,3 +684,107 @@ def run(repo: Repo, rep: Report) -> None:  # noqa: F811
                                norm(sw[0].type) if sw[0].type is not None else "", norm(sink)[:40] if sink is not None else "?", why), node=c)
     if n_try < 2:
         raise AnalysisError("expected >= 2 parse calls inside try statements (Graph.parse -> parser.parse, QueryContext.load), found %d" % n_try)
+
+
+_run_base3 = run
+
+COMPARE = "rdflib.compare"
+CANONICAL_FORM = "_TripleCanonicalizer._canonicalize_bnodes"  # produces the canonical triples from a node -> label map
+
+
+def run(repo: Repo, rep: Report) -> None:  # noqa: F811
+    _run_base3(repo, rep)
+    import re
+
+    from vlib import h_c12
+
+    typed = repo.typed
+    rep.extra["explanation"] = EXPLANATION + (
+        " (g, h) The last clause of the property ('the same document parsed into two fresh graphs gives isomorphic graphs') is observable only "
+        "through rdflib.compare, whose digest must not depend on the blank-node ids a parse happened to generate: the search over individuations "
+        "may skip a candidate only on the strength of a VERIFIED symmetry - every entry written into the map that the skip test reads is "
+        "dominated by the comparison of the canonical triples under the two labelings, and two colorings are never paired by list position."
+    )
+    cm = repo.mod(COMPARE)
+    cm.func(CANONICAL_FORM)  # anchor
+    canonical_full = "%s.%s" % (COMPARE, CANONICAL_FORM)
+
+    # ------------------------------------------------------------------ (g)
+    # F187: skipping a candidate of the individuation search is sound only if the candidate is the image of a visited one under an
+    # automorphism; a node pairing derived from two discrete colorings IS an automorphism iff both labelings give the same canonical triples.
+    rep.rule("C12.g-search-pruning-only-by-verified-symmetry",
+             "in rdflib.compare, a mapping that makes the canonical-labelling search skip a candidate (a `continue` whose test reads the mapping) is "
+             "written only where both labelings it was derived from have been compared and found to give the same canonical triples: every statement "
+             "of the function that builds the mapping which stores an entry is reachable only through the 'equal' side of an ==/!= test between two "
+             "different values that are both computed with _canonicalize_bnodes. Without the test a pairing that is not a symmetry prunes candidates "
+             "that are not equivalent, the labelling chosen depends on iteration order, i.e. on the generated blank-node ids: the 18-line N-Triples "
+             "document of F187 (two copies of a two-cell list with equal members plus two copies of the chain _:x q _:y . _:y p _:z . _:z p _:z . "
+             "_:z p <b>) parsed into two fresh graphs gave graphs that isomorphic() called different in 4 runs of 10", floor=1)
+    builders = h_c12.pruning_builders(repo, typed, COMPARE)
+    if not builders:
+        raise AnalysisError("rdflib.compare: no loop that skips a candidate on the strength of a mapping built by a function of the module "
+                            "(the symmetry pruning of _TripleCanonicalizer._traces) found")
+    rep.info["search_pruning_maps"] = sorted({"%s <- %s" % (q, full) for q, _, full, _ in builders})
+    built_by: dict[str, ast.AST] = {}
+    for q, cont, full, call in builders:
+        built_by.setdefault(full, cm.func(full[len(COMPARE) + 1:]))
+        rep.analysed("%s:%s" % (cm.rel, q))
+    for full, fn in sorted(built_by.items()):
+        bq = full[len(COMPARE) + 1:]
+        rep.analysed("%s:%s" % (cm.rel, bq))
+        stores = h_c12.mapping_stores(fn)
+        if not stores:
+            raise AnalysisError("%s: no statement that writes an entry of the mapping it returns (unmodelled way of building the pruning map)" % bq)
+        guards = h_c12.equality_guards(repo, typed, COMPARE, fn, canonical_full)
+        g = CFG(fn)
+        gmap = {g.by_ast[id(n)]: kind for kind, n in guards.values() if id(n) in g.by_ast}
+        for st, mname in stores:
+            bad = h_c12.reached_without_equality(g, gmap, g.node_of(st, cm))
+            rep.ob("C12.g-search-pruning-only-by-verified-symmetry", cm, bq, st, not bad,
+                   "reached only after `%s` found the canonical triples of both labelings equal" % norm(next(iter(guards.values()))[1].test)[:120] if not bad else
+                   "the entry is written into the pruning map %s without the two labelings having been compared (%s): a pairing of the nodes of two "
+                   "discrete colorings that is not an automorphism makes the search skip candidates that are not equivalent to a visited one, and the "
+                   "digest of a graph then depends on its blank-node ids - two parses of one document are reported as not isomorphic" % (
+                       mname, "no ==/!= test between two values computed with _canonicalize_bnodes in this function" if not guards else
+                       "the test `%s` does not dominate it on its 'equal' side" % norm(next(iter(guards.values()))[1].test)[:80]), node=st)
+
+    # ------------------------------------------------------------------ (h)
+    # F187, other half: the order of the Color objects in a coloring is the order in which refinement happened to split them (set iteration,
+    # i.e. blank-node ids); the i-th colour of one coloring and the i-th colour of another have nothing to do with each other.
+    rep.rule("C12.h-colorings-not-paired-by-position",
+             "no function of rdflib.compare pairs two colorings position by position: no zip() takes a list[Color] (or unpacks a list[list[Color]]) "
+             "that is not sorted(...) first. Colours correspond by their hash_color(), not by their index in the list; `zip(*colorings)` grouped "
+             "unrelated nodes into one orbit (same F187 input)", floor=1)
+    color_list = re.compile(r"^(builtins\.)?list\[(builtins\.)?list\[rdflib\.compare\.Color\]\]$|^(builtins\.)?list\[rdflib\.compare\.Color\]$")
+    bad_zips: dict[str, list[ast.AST]] = {}
+    n_zip = 0
+    for q, f in cm.functions():
+        for c in own_nodes(f):
+            if not isinstance(c, ast.Call):
+                continue
+            cal = typed.callees(COMPARE, c)
+            if not (any(x.startswith(("builtins.zip.", "itertools.zip_longest.")) for x in cal) or (not cal and norm(c.func) in ("zip", "zip_longest", "itertools.zip_longest"))):
+                continue
+            n_zip += 1
+            for a in c.args:
+                e = a.value if isinstance(a, ast.Starred) else a
+                vals = [e] if not isinstance(e, ast.Name) else (h_c12.local_values(f, e.id) or [e])
+                if all(isinstance(v, ast.Call) and norm(v.func) == "sorted" for v in vals):
+                    continue
+                tf = typed.type_of(COMPARE, e)
+                if tf is not None and color_list.match(tf.text.replace(" | None", "")):
+                    bad_zips.setdefault(q, []).append(c)
+                    break
+    for full, fn in sorted(built_by.items()):
+        bq = full[len(COMPARE) + 1:]
+        zs = bad_zips.pop(bq, [])
+        rep.ob("C12.h-colorings-not-paired-by-position", cm, bq, zs[0] if zs else "no zip() over colorings", not zs,
+               "the nodes of the two colorings are not matched by list position" if not zs else
+               "`%s` pairs the colours of independently refined colorings by their list position; the nodes grouped into one orbit need not have the "
+               "same colour, so the search skips candidates that are not equivalent and the digest depends on blank-node ids" % norm(zs[0])[:80],
+               node=zs[0] if zs else fn)
+    rep.info["zip_calls_in_rdflib_compare"] = n_zip
+    for q, zs in sorted(bad_zips.items()):
+        for z in zs:
+            rep.ob("C12.h-colorings-not-paired-by-position", cm, q, z, False,
+                   "`%s` pairs the colours of colorings by their list position, which carries no meaning (it follows set iteration order, i.e. blank-node ids)" % norm(z)[:80], node=z)
